@@ -242,6 +242,13 @@ func init() {
 	reg(vp+"SpyArgBool", func(e *Exec, s *State, f *Frame, x *ssa.Call, a []Val) ([]*State, bool) {
 		return ret(f, x, spyArg(s, a).(Sym))
 	})
+	reg(vp+"SpyArgIsCtx", func(e *Exec, s *State, f *Frame, x *ssa.Call, a []Val) ([]*State, bool) {
+		c, ok := spyArg(s, a[:3]).(CtxV)
+		if !ok {
+			panic("SpyArgIsCtx: argument is not a context")
+		}
+		return ret(f, x, boolc(c.ID == a[3].(CtxV).ID))
+	})
 	reg(vp+"SpyResZ", func(e *Exec, s *State, f *Frame, x *ssa.Call, a []Val) ([]*State, bool) {
 		calls := spyCalls(s, a[0].(StrV).S)
 		ci, _ := asConst(a[1].(Sym).S)
@@ -269,6 +276,13 @@ func init() {
 		r := calls[ci.Int64()].Res
 		iv := r[len(r)-1].(IfaceV)
 		return ret(f, x, Sym{Bool: true, S: ifaceNilTerm(iv)})
+	})
+	reg(vp+"StubMayPanic", func(e *Exec, s *State, f *Frame, x *ssa.Call, a []Val) ([]*State, bool) {
+		e.mu.Lock()
+		e.stubs[a[0].(StrV).S] = true
+		e.stubPanic[a[0].(StrV).S] = true
+		e.mu.Unlock()
+		return nil, false
 	})
 	reg(vp+"StubMonotone", func(e *Exec, s *State, f *Frame, x *ssa.Call, a []Val) ([]*State, bool) {
 		ai, _ := asConst(a[1].(Sym).S)
